@@ -240,6 +240,15 @@ fn core_plan(prop: &str, thorough: bool, seed: u64, all_cases: &[CaseRec], tidx:
                 }
                 // public protocols: every single-bit neighbour of the signer's public key bytes (most are not
                 // valid keys: refusing the key is a failure to verify, as the property demands); core layer
+                if case.mint.pr == "v1.public" {
+                    // the signer's RSA key wrapped in bytes that are no key encoding: not the signer's key
+                    for variant in 0..24 {
+                        let spec = InstSpec { msg_len: 20, msg_class: variant, json_msg: true, pair_idx: variant, k2: K2Mode::PubJunk(variant), k1_special: 0, seed_special: 0 };
+                        let inst = make_instance(&spec, &pairs, &mut r);
+                        let cfg = ReplayCfg { layers: all_layers.clone(), budget: Budget { bits: 0, chars: 0, other: 0 }, max_tokens: 1, offdiag_tokens: 0, max_violations: 20 };
+                        replay_case(case, &inst, &cfg, &want_prop, &mut r, &mut st);
+                    }
+                }
                 if case.mint.pr.ends_with("public") && !case.mint.pr.starts_with("v1") {
                     let nbits = if case.mint.pr.starts_with("v3") { 49 * 8 } else { 32 * 8 };
                     let step = if thorough || !is_slow { 1 } else { 4 };
